@@ -1206,6 +1206,17 @@ def o_toprim(ty):
             return ("some", -A)
         if (repr(lim), repr(A)) in c.st.lt:
             return ("none",)
+        # the same decision written with `<` / `==` / `<=` on the scalars instead of cmp(): opaque boolean keys
+        def bk(op, x, y):
+            return c.st.bools.get("%s(%r,%r)" % (op, x, y))
+
+        lt_, le_, eq_, gt_, ge_ = bk("Lt", A, lim), bk("Le", A, lim), bk("Eq", A, lim), bk("Gt", A, lim), bk("Ge", A, lim)
+        if eq_ is True:
+            return ("some", -lim)  # |a| = 2^(bits-1): the MIN edge
+        if lt_ is True or le_ is True or gt_ is False:
+            return ("some", -A)
+        if gt_ is True or le_ is False or (lt_ is False and eq_ is False) or (ge_ is True and eq_ is False):
+            return ("none",)
         raise Mismatch("|a| was never compared with 2^%d" % (bits - 1))
 
     return f
